@@ -62,6 +62,18 @@ def table(job):
             "edges": hierarchy_edges(domain)}
 
 
+def table_file(job):
+    """a domain file shipped with the repository, parsed as it is: {types, table, edges} or {raised}"""
+    try:
+        domain = DomainParser(Path(job["path"])).parse_domain()
+    except RecursionError as e:
+        return exc(e)
+    except Exception as e:  # noqa
+        return exc(e)
+    return {"types": sorted(domain.types), "table": type_table(domain, job["names"]),
+            "edges": hierarchy_edges(domain)}
+
+
 # ------------------------------------------------------------------------------------------- sites
 def problem_text(objects, init="", goal=""):
     objs = " ".join("%s - %s" % (n, t) for n, t in objects)
@@ -139,8 +151,8 @@ def sites(job):
         elif kind == "forall_pre":
             def pre(t, r):
                 try:
-                    # every (m o) except for the object of type t
-                    init = " ".join("(m %s)" % o for o in obj_names if o != "o" + t)
+                    # every (m x), for objects and constants, except for the object of type t
+                    init = " ".join("(m %s)" % o for o in obj_names + ["k" + x for x in names] if o != "o" + t)
                     p = write_tmp(problem_text(objects, init=init))
                     try:
                         prob = ProblemParser(p, domain).parse_problem()
@@ -163,6 +175,28 @@ def sites(job):
                         p.unlink()
                     op = Operator(domain.actions["eff" + r], domain, [], prob.objects)
                     nxt = op.apply(fresh_state(prob))
+                    text = nxt.serialize()
+                    rows[r] = {t: ("1" if ("(hit o%s)" % t) in text else "0") for t in names}
+                except Exception:  # noqa
+                    rows[r] = {t: "E" for t in names}
+            m = matrix(lambda t, r: rows[r][t])
+        elif kind == "joint_eff":
+            # joint execution (multi_agent/common.apply_actions) of eff<R> together with chkobject: two executed
+            # members, so the accumulating path is taken; the members' operators get the problem's objects
+            from pddl_plus_parser.models import ActionCall
+            from pddl_plus_parser.multi_agent.common import apply_actions
+            rows = {}
+            for r in names:
+                try:
+                    init = " ".join("(m %s)" % o for o in obj_names + ["k" + x for x in names])
+                    p = write_tmp(problem_text(objects, init=init))
+                    try:
+                        prob = ProblemParser(p, domain).parse_problem()
+                    finally:
+                        p.unlink()
+                    nxt = apply_actions(domain, fresh_state(prob),
+                                        [ActionCall("eff" + r, []), ActionCall("chkobject", [])],
+                                        problem_objects=prob.objects)
                     text = nxt.serialize()
                     rows[r] = {t: ("1" if ("(hit o%s)" % t) in text else "0") for t in names}
                 except Exception:  # noqa
